@@ -44,13 +44,24 @@ for _d, (_n, _f) in FIELDS.items():
 assert len(set(WIREKEY.values())) == 4, "A and Acol must really share an identifier"
 
 
-def leaf(d):
-    return {"kind": "rec", "d": d, "kids": []}
+def leaf(d, bad=False):
+    return {"kind": "rec", "d": d, "kids": [], "bad": bad}
+
+
+def hold(ks):
+    return {"kind": "rec", "d": "H", "kids": ks, "bad": False}
 
 
 LEAVES = [leaf(d) for d in ["A", "A2", "Acol", "B"]]
-HOLD = [{"kind": "rec", "d": "H", "kids": ks} for ks in [[]] + [[a] for a in LEAVES] + [[a, b] for a in LEAVES for b in LEAVES]]
-GRP = [{"kind": "grp", "d": "G", "kids": [a, b]} for a in LEAVES for b in [leaf("B"), {"kind": "rec", "d": "H", "kids": [leaf("A2")]}]]
+BADLEAVES = [leaf(d, True) for d in ["A", "Acol", "B"]]
+HOLD = [hold(ks) for ks in [[]] + [[a] for a in LEAVES] + [[a, b] for a in LEAVES for b in LEAVES]]
+GRP = [{"kind": "grp", "d": "G", "kids": [a, b], "bad": False} for a in LEAVES for b in [leaf("B"), leaf("A2"), hold([leaf("A2")])]]
+# values whose write() raises part-way through packing (own text value with a lone surrogate)
+FAIL = BADLEAVES + [hold([x]) for x in BADLEAVES] + [hold([a, x]) for a in LEAVES for x in BADLEAVES] + [hold([x, a]) for a in LEAVES for x in BADLEAVES]
+
+
+def is_fail(v):
+    return v.get("bad") or any(is_fail(k) for k in v["kids"])
 
 
 def needs(v):
@@ -75,11 +86,12 @@ def build(DESC, v, n=[0]):
     if d == "H":
         ks = [build(DESC, k) for k in v["kids"]]
         return DESC["H"](ks[0] if ks else None, ks[1:])
+    val = "\ud800" if v.get("bad") else "x"  # a lone surrogate is accepted by the field but cannot be packed
     if d == "A":
-        return DESC[d]("1", "2")
+        return DESC[d]("1", val)
     if d == "A2":
         return DESC[d](3)
-    return DESC[d]("x")
+    return DESC[d](val)
 
 
 # ---------- observation: bytes -> frames (independent of flow.record) ----------
@@ -195,6 +207,12 @@ class LowLevel:
         self.pos = len(data)
         return frames_binary(new, v)
 
+    def after_failure(self, v):
+        data = self.buf.getvalue()
+        new = data[self.pos:]
+        self.pos = len(data)
+        return frames_binary(new, v)
+
     def readback(self):
         from flow.record import RecordStreamReader
 
@@ -229,6 +247,10 @@ class PathBased:
         self.w.flush()
         return frames_binary(self._new(), v)
 
+    def after_failure(self, v):
+        self.w.flush()
+        return frames_binary(self._new(), v)
+
     def readback(self):
         from flow.record import RecordReader
 
@@ -255,11 +277,18 @@ def run_history(kind, hist, DESC, tmp):
         if wid not in ws:
             ws[wid] = kind(tmp, wid)
         rec = build(DESC, v)
+        ok = True
         try:
             fr = ws[wid].write(rec, v)
         except Exception as e:
-            fr = [{"k": "BAD", "why": "write raised " + type(e).__name__}]
-        tr.append({"op": "write", "w": wid, "v": v, "frames": fr})
+            ok = False
+            if is_fail(v):
+                fr = ws[wid].after_failure(v)  # what reached the stream before the exception
+            else:
+                fr = [{"k": "BAD", "why": "write raised " + type(e).__name__}]
+        if is_fail(v) and ok:
+            fr = fr + [{"k": "BAD", "why": "unpackable value was accepted"}]
+        tr.append({"op": "write", "w": wid, "v": v, "ok": ok, "frames": fr})
     for wid, w in ws.items():
         trees, how = [], "end"
         try:
@@ -271,10 +300,20 @@ def run_history(kind, hist, DESC, tmp):
     return tr
 
 
-def gen_histories(ctx, recs, tier, exhaustive_len, n_random, rand_len):
+def gen_histories(ctx, recs, tier, exhaustive_len, n_random, rand_len, fail=()):
     W = ["w1", "w2"]
     out = []
+    fail = [v for v in fail if not self_colliding(v)]
     choices = [(w, v) for w in W for v in recs]
+    # every (failing write, later write) pair on one writer, and with one good write in front
+    for f in fail:
+        for v in recs:
+            if not self_colliding(v):
+                out.append([("w1", f), ("w1", v)])
+        for v in LEAVES:
+            for v2 in LEAVES:
+                out.append([("w1", v), ("w1", f), ("w1", v2)])
+    recs = list(recs) + list(fail)
     for n in range(1, exhaustive_len + 1):
         if n == 1:
             out += [[c] for c in choices]
@@ -298,7 +337,7 @@ def gen_histories(ctx, recs, tier, exhaustive_len, n_random, rand_len):
 
 def hist_key(h):
     def s(v):
-        return v["d"] + ("(" + ",".join(s(k) for k in v["kids"]) + ")" if v["kids"] else "")
+        return v["d"] + ("!" if v.get("bad") else "") + ("(" + ",".join(s(k) for k in v["kids"]) + ")" if v["kids"] else "")
 
     return " ".join(f"{w}:{s(v)}" for w, v in h)
 
@@ -356,10 +395,13 @@ def run(tier):
             ctx.violation({"check": "identifier-function", "descriptor": d}, {"impl": list(DESC[d].identifier), "reference": [n, rc.descriptor_hash(n, f)]})
     # 1. the design satisfies the property (exhaustive, small constants)
     thorough = tier == "thorough"
-    ctx.design("MC_Stream", "MC_Stream_msgpack.cfg", "exhaustive: 2 writers, 31 values, <=3 writes, msgpack", actions=("Write",) if thorough else ())
+    if thorough:
+        ctx.design("MC_Stream", "MC_Stream_msgpack.cfg", "exhaustive: 2 writers, 35 values + 28 failing writes, <=3 writes, msgpack", actions=("Write", "FailWrite"), timeout=3000)
+    else:
+        ctx.design("MC_Stream", "MC_Stream_msgpack_q1.cfg", "exhaustive: 2 writers, 35 values + 28 failing writes, <=2 writes, msgpack", actions=("Write", "FailWrite"))
+        ctx.design("MC_Stream", "MC_Stream_msgpack_q2.cfg", "exhaustive: 1 writer, 35 values + 28 failing writes, <=3 writes, msgpack")
     ctx.design("MC_Stream", "MC_Stream_json.cfg", "exhaustive: 2 writers, 23 values, <=3 writes, json")
     if thorough:
-        ctx.design("MC_Stream", "MC_Stream_msgpack_deep.cfg", "exhaustive: 1 writer, <=4 writes, msgpack", timeout=3000)
         ctx.sensitivity("MC_Stream", "MC_Stream_dev_guard.cfg", "deviation GuardByIdentifier must violate DefBeforeUse", "DefBeforeUse")
         ctx.sensitivity("MC_Stream", "MC_Stream_dev_shared.cfg", "deviation SharedRegistry must violate DefBeforeUse", "DefBeforeUse")
         ctx.sensitivity("MC_Stream", "MC_Stream_selfcolliding.cfg", "two colliding descriptors inside ONE frame: no emission order helps", "DefBeforeUse")
@@ -368,15 +410,15 @@ def run(tier):
     plain = LEAVES + HOLD
     allv = plain + GRP
     plans = [
-        (LowLevel, allv, 2 if not thorough else 2, 1500 if not thorough else 12000, (4, 12) if not thorough else (8, 30)),
-        (PathBased, allv, 1, 600 if not thorough else 6000, (3, 10) if not thorough else (8, 24)),
-        (JsonPath, plain, 1, 600 if not thorough else 6000, (3, 10) if not thorough else (8, 24)),
+        (LowLevel, allv, 2 if not thorough else 2, 1500 if not thorough else 12000, (4, 12) if not thorough else (8, 30), FAIL),
+        (PathBased, allv, 1, 600 if not thorough else 6000, (3, 10) if not thorough else (8, 24), FAIL),
+        (JsonPath, plain, 1, 600 if not thorough else 6000, (3, 10) if not thorough else (8, 24), ()),
     ]
     if thorough:
-        plans[1] = (PathBased, allv, 2, 6000, (8, 24))
-        plans[2] = (JsonPath, plain, 2, 6000, (8, 24))
-    for kind, recs, exl, nrand, rl in plans:
-        hists = gen_histories(ctx, recs, tier, exl, nrand, rl)
+        plans[1] = (PathBased, allv, 2, 6000, (8, 24), FAIL)
+        plans[2] = (JsonPath, plain, 2, 6000, (8, 24), ())
+    for kind, recs, exl, nrand, rl, fail in plans:
+        hists = gen_histories(ctx, recs, tier, exl, nrand, rl, fail if kind is not PathBased or thorough else fail[:9])
         # chunk so that one TLC invocation parses <= ~20 MB of JSON
         chunk, traces, size, part = [], [], 0, 0
         for h in hists:
